@@ -18,15 +18,15 @@ import (
 func main() {
 	reg := map[string]harness.Harness{
 		"C01": harness.External{Property: "C01", Ver: "c01-v1", M: plat.C01Meta(), Quick: 960, Thor: 30000, Bin: "plat.test", TestName: "TestJob", Classify: plat.ClassifyExitC01},
-		"C02": harness.External{Property: "C02", Ver: "c02-v3", M: plat.C02Meta(), Quick: 480, Thor: 12000, Bin: "plat.test", TestName: "TestJob", Classify: plat.ClassifyExit},
-		"C05": c05.H{Child: harness.External{Property: "C05", ChildKey: "C11", Ver: "c05-child-v2", M: plat.C11Meta(), Bin: "plat.test", TestName: "TestJob", Classify: plat.ClassifyExit}},
+		"C02": harness.External{Property: "C02", Ver: "c02-v4", M: plat.C02Meta(), Quick: 480, Thor: 12000, Bin: "plat.test", TestName: "TestJob", Classify: plat.ClassifyExit},
+		"C05": c05.H{Child: harness.External{Property: "C05", ChildKey: "C11", Ver: "c05-child-v3", M: plat.C11Meta(), Bin: "plat.test", TestName: "TestJob", Classify: plat.ClassifyExit}},
 		"C08": harness.Multi{Property: "C08", Parts: []harness.Harness{
 			harness.External{Property: "C08", Ver: "c08-plat-v1", M: plat.C08Meta(), Quick: 400, Thor: 20000, Bin: "plat.test", TestName: "TestJob", Classify: plat.ClassifyExit},
 			c09.H{Filters: true, Prop: "C08"},
 		}, Weights: []int{1, 5}, Quick: 2400, Thor: 240000},
 		"C09": c09.H{},
 		"C10": c10.H{},
-		"C11": harness.External{Property: "C11", Ver: "c11-v6", M: plat.C11Meta(), Quick: 600, Thor: 20000, Bin: "plat.test", TestName: "TestJob", Classify: plat.ClassifyExit},
+		"C11": harness.External{Property: "C11", Ver: "c11-v7", M: plat.C11Meta(), Quick: 600, Thor: 20000, Bin: "plat.test", TestName: "TestJob", Classify: plat.ClassifyExit},
 		"C12": harness.External{Property: "C12", Ver: "c12-v5", M: plat.C12Meta(), Quick: 2400, Thor: 60000, Bin: "plat.test", TestName: "TestJob", Classify: plat.ClassifyExit},
 		"C14": harness.External{Property: "C14", Ver: "c14-v3", M: plat.C14Meta(), Quick: 800, Thor: 20000, Bin: "plat.test", TestName: "TestJob", Classify: plat.ClassifyExit},
 		"C15": c15.H{},
